@@ -35,6 +35,7 @@ package executor
 // and the running coin untouched.
 //@ func (e *Executor) HandlePacket(ctx, packet) (err)
 //@   requires[inv]  e != nil && e.router != nil
+//@   requires[inv]  routesNonNil(e.router)
 //@   modifies bank, events, actcalls, act_ctrl, act_pkt, packet.TransferAttributes.destinationCoin
 //@   ensures[C06] actcalls > old(actcalls) ==> act_pkt == packet
 //@   requires[C01] bankNonneg(bank)
